@@ -20,6 +20,7 @@ dump).  Dumps of fresh compiles are inputs (the compiler is not modelled) and ar
 import NV.Common.Proto
 import NV.C17.Model
 import NV.C17.Spec
+import NV.C17.BinFile
 
 namespace NV.C17
 
@@ -110,6 +111,7 @@ def runUtimes (ts : List String) : List String :=
 structure MState where
   sys : Sys := {}
   blocks : List (List String) := []          -- the implementation's reload blocks still to come
+  binLines : List String := []               -- the implementation's `bin <obj> <hex>` lines still to come
   fresh : List (String × List (List String)) := []    -- tag ↦ D lines (tokens after "D tag") of the last fresh compile
   freshR : List (String × List String) := []
   rno : Nat := 0
@@ -241,6 +243,18 @@ def sysLine (m : MState) (line : String) : MState :=
     let w := sampleConfigId w "/simul_efun.c"
     ({ m with sys := { m.sys with w := w } }).emit s!"restarted {w.configId}"
   | "expect" :: _ => m
+  | ["bindump", obj] =>
+    -- the bytes of the saved binary are data (what the compiler produced is not modelled); the model reads them with its
+    -- own decoder and states what the file holds
+    let mine := m.binLines.takeWhile (fun l => l.startsWith s!"bin {obj} ")
+    let m := { m with binLines := m.binLines.drop mine.length }
+    if mine.isEmpty then
+      let has := (m.sys.w.bins.lookup (binPath m.sys.w (obj ++ ".c"))).isSome && m.sys.w.loaded.contains obj
+      m.emit (if has then s!"bindump-file-missing {obj}" else s!"bindump {obj} unavailable")
+    else
+      let m := mine.foldl MState.emit m
+      let hex := String.join (mine.map (fun l => ((toks l).getD 2 "")))
+      m.emit (binSummary obj (unhexBytes hex))
   | ["badload", name] =>
     ((m.emit s!"lb {name}.c stale").emit s!"err *Error in loading object '/{name}':").emit s!"badload {name} failed"
   | ["foreign", name, what] =>
@@ -329,7 +343,7 @@ def sysLine (m : MState) (line : String) : MState :=
 
 def runModel (body : List String) : List String :=
   let (caseLines, trace) := splitJudge body
-  let m0 : MState := { blocks := splitBlocks trace,
+  let m0 : MState := { blocks := splitBlocks trace, binLines := trace.filter (·.startsWith "bin "),
                        sys := { w := { files := [("simul_efun.c", 2000000000)] } } }
   -- a crash of the model's own prediction stops the case like the sanitizer stops the driver
   -- `reloadp` is `reload` in a new process: the same decisions
@@ -340,7 +354,7 @@ def runModel (body : List String) : List String :=
 /-- branch histogram of the decision model (used by the evidence, not by the check) -/
 def runReasons (body : List String) : List String :=
   let (caseLines, trace) := splitJudge body
-  let m0 : MState := { blocks := splitBlocks trace,
+  let m0 : MState := { blocks := splitBlocks trace, binLines := trace.filter (·.startsWith "bin "),
                        sys := { w := { files := [("simul_efun.c", 2000000000)] } } }
   let norm (l : String) : String := if l.startsWith "reloadp " then "reload " ++ (l.drop 8).toString else l
   (caseLines.foldl (fun m l => sysLine m (norm l)) m0).reasons
